@@ -231,11 +231,72 @@ def do_script(req):
     return getattr(mod, req["func"])(req.get("params", {}))
 
 
+def do_pair_search(req):
+    """fallback confirmation for batch-independence counterexamples whose model relies on the distance abstraction: real
+    generator instances in the same batch composition, random mask-admitted rollouts, row `pos` re-run alone with its own
+    actions; returns the first real discrepancy (mask / finishing step / reward)"""
+    B, pos = req["B"], req["pos"]
+    for seed in range(req.get("tries", 300)):
+        torch.manual_seed(seed)
+        env = make_env(req["env"])
+        if req.get("row_envs"):
+            td0 = torch.cat([make_env(e).generator(batch_size=[1]) for e in req["row_envs"]], 0)
+        else:
+            td0 = env.generator(batch_size=[B])
+        td = env.reset(td0.clone())
+        masks, dones, acts = [td["action_mask"].clone()], [td["done"].reshape(B, -1).all(-1).clone()], []
+        ok = True
+        for _ in range(req.get("max_steps", 60)):
+            if bool(td["done"].all()):
+                break
+            m = td["action_mask"].reshape(B, -1).float()
+            if (m.sum(-1) == 0).any():
+                ok = False
+                break
+            a = torch.multinomial(m, 1).squeeze(-1)
+            acts.append(a)
+            td.set("action", a)
+            td = env.step(td)["next"]
+            masks.append(td["action_mask"].clone())
+            dones.append(td["done"].reshape(B, -1).all(-1).clone())
+        if not ok or not acts:
+            continue
+        A = torch.stack(acts, 1)
+        try:
+            rb = env._get_reward(td, A)
+        except Exception as e:  # noqa: BLE001
+            rb = None
+        ts = env.reset(td0[pos : pos + 1].clone())
+        info = {"seed": seed, "td": {k: {"dtype": str(v.dtype).replace("torch.", ""), "data": from_tensor(v)} for k, v in td0.items()}, "actions": from_tensor(A)}
+        sa = []
+        for t in range(len(acts) + 1):
+            ds = bool(ts["done"].reshape(1, -1).all())
+            if ds != bool(dones[t][pos]):
+                return dict(info, violation=f"row {pos} finishes at a different step alone than in the batch (step {t})")
+            if ds:
+                break
+            if not torch.equal(ts["action_mask"][0], masks[t][pos]):
+                return dict(info, violation=f"mask of row {pos} at step {t} differs alone {ts['action_mask'][0].int().tolist()} vs in batch {masks[t][pos].int().tolist()}")
+            if t == len(acts):
+                break
+            ts.set("action", acts[t][pos : pos + 1])
+            sa.append(acts[t][pos : pos + 1])
+            ts = env.step(ts)["next"]
+        if rb is not None and sa:
+            try:
+                rs = env._get_reward(ts, torch.stack(sa, 1))
+                if abs(float(rs.reshape(-1)[0]) - float(rb.reshape(-1)[pos])) > 1e-4 * (1 + abs(float(rs.reshape(-1)[0]))):
+                    return dict(info, violation=f"reward of row {pos}: alone {float(rs.reshape(-1)[0]):.6f} vs in batch (with padding / batch-mates) {float(rb.reshape(-1)[pos]):.6f}")
+            except Exception:  # noqa: BLE001
+                pass
+    return {"violation": None}
+
+
 def do_pair(req):
     return {"batched": do_episode(req["batched"]), "solo": do_episode(req["solo"])}
 
 
-KINDS = {"episode": do_episode, "pair": do_pair, "rollout": do_rollout, "checker": do_checker, "call": do_call, "script": do_script}
+KINDS = {"episode": do_episode, "pair": do_pair, "pair_search": do_pair_search, "rollout": do_rollout, "checker": do_checker, "call": do_call, "script": do_script}
 
 
 def main():
